@@ -18,6 +18,10 @@ class Unmodelled(Exception):
     pass
 
 
+class StructureChanged(Exception):
+    """a hand-built name is no longer assembled from the ingredients the model assumes"""
+
+
 # --------------------------------------------------------------------------
 # recorders: the two modules that hand-build names call a module-level `tokenize`; wrapping it (from the
 # harness process only) remembers the arguments behind every hash that ends up inside a name.  (Random's
@@ -204,7 +208,9 @@ class Case:
         if isinstance(n, Random):
             h = n._name.rpartition("-")[2]
             rec = RECORDED.get(h)
-            if rec is None or len(rec) != 5 or owner != "Random" or n._name != f"{n.distribution}-{h}":
+            if rec is not None and (len(rec) != 5 or owner != "Random" or n._name != f"{n.distribution}-{h}"):
+                raise StructureChanged(f"Random._info hashes {len(rec)} ingredients (model: bitgens, size, chunks, args, kwargs) / tokenizer owner {owner}")
+            if rec is None:
                 raise Unmodelled("random node built outside the recorder")
             bitgen_token, size, nchunks, args, kwargs = rec
             items = []
